@@ -508,9 +508,12 @@ Lemma cleanup_releases_all : forall r, released (cleanup r) = true.
 Proof. intros. destruct r. reflexivity. Qed.
 
 Lemma cleanup_idempotent : forall r, cleanup (cleanup r) = cleanup r.
-Proof. intros. destruct r. reflexivity. Qed.
+Proof. intros. destruct r as [? ? ? ? ? ? ? ? w]. destruct w; reflexivity. Qed.
 
 Lemma closed_absorbing : forall c s e, lp s = LClosed -> lstep c s e = s.
+Proof. intros. unfold lstep. rewrite H. destruct e; auto. Qed.
+
+Lemma stuck_absorbing : forall c s e, lp s = LStuck -> lstep c s e = s.
 Proof. intros. unfold lstep. rewrite H. destruct e; auto. Qed.
 
 Lemma lstep_inv : forall c s e,
@@ -520,10 +523,13 @@ Lemma lstep_inv : forall c s e,
 Proof.
   intros c s e Hc Hinv. destruct (lp s) eqn:Ep.
   4:{ rewrite closed_absorbing by auto. rewrite Ep. auto. }
+  4:{ rewrite stuck_absorbing by auto. rewrite Ep. discriminate. }
   all: unfold lstep; rewrite Ep; destruct e; simpl; try discriminate;
     try rewrite Hc; intros; try apply cleanup_releases_all; try discriminate.
   all: try (destruct (r_sse_task (lr s)); simpl in *; rewrite ?Ep in *; discriminate).
   all: try (destruct (r_out_task (lr s)); simpl in *; rewrite ?Ep in *; discriminate).
+  all: try (destruct (r_out_task (lr s) && negb (Nat.eqb (r_pending (lr s)) 0)); simpl in *; rewrite ?Ep in *; discriminate).
+  all: destruct (exit_stuck c k (lr s)); simpl in *; try discriminate; apply cleanup_releases_all.
 Qed.
 
 Lemma life_gen : forall c evs s,
@@ -540,12 +546,33 @@ Lemma life_closed_released : forall c evs,
   lp (life c evs) = LClosed -> released (lr (life c evs)) = true.
 Proof. intros. apply life_gen; auto; simpl; discriminate. Qed.
 
-(** Every way of ending a life closes it. *)
-Lemma exits_close : forall c s k, lp s = LInside -> lp (lstep c s (LExit k)) = LClosed.
-Proof. intros. unfold lstep. rewrite H. auto. Qed.
-Lemma enter_failures_close : forall c s, lp s = LEntering ->
-  lp (lstep c s LEnterRaise) = LClosed /\ lp (lstep c s LEnterCancel) = LClosed.
-Proof. intros. unfold lstep. rewrite H. auto. Qed.
+(** Every way of leaving completes: an exit from ANY inside state closes the
+    life (it cannot get stuck), failing or cancelled entering closes it. *)
+Lemma exits_close : forall c s k, c_reraise_cancel c = true -> lp s = LInside ->
+  lp (lstep c s (LExit k)) = LClosed /\ released (lr (lstep c s (LExit k))) = true.
+Proof.
+  intros. unfold lstep, exit_stuck. rewrite H0, H. simpl. split; auto; apply cleanup_releases_all.
+Qed.
+
+Lemma enter_failures_close : forall c s, c_enter_cancel c = true -> lp s = LEntering ->
+  (lp (lstep c s LEnterRaise) = LClosed /\ released (lr (lstep c s LEnterRaise)) = true) /\
+  (lp (lstep c s LEnterCancel) = LClosed /\ released (lr (lstep c s LEnterCancel)) = true).
+Proof. intros. unfold lstep. rewrite H0, H. simpl. repeat split; auto; apply cleanup_releases_all. Qed.
+
+(** A life never gets stuck when the sender re-raises. *)
+Lemma never_stuck : forall c evs, c_reraise_cancel c = true -> lp (life c evs) <> LStuck.
+Proof.
+  intros c evs H. unfold life.
+  assert (G : forall evs s, lp s <> LStuck -> lp (fold_left (lstep c) evs s) <> LStuck).
+  { induction evs0 as [|e evs0 IH]; intros s Hs; simpl; auto. apply IH.
+    unfold lstep, exit_stuck. rewrite H. simpl.
+    destruct e; destruct (lp s) eqn:Ep; simpl; try congruence;
+      try (destruct (r_sse_task (lr s)); simpl; congruence);
+      try (destruct (r_out_task (lr s)); simpl; congruence);
+      try (destruct (r_out_task (lr s) && negb (Nat.eqb (r_pending (lr s)) 0)); simpl; congruence);
+      try (destruct (c_enter_cancel c); simpl; congruence). }
+  apply G. simpl. discriminate.
+Qed.
 
 (* ------------------------------------------------------------------ *)
 (** * Refutations                                                      *)
@@ -563,7 +590,7 @@ Lemma one_terminal_refuted : forall c, ~ one_terminal_statement c.
 Proof.
   intros c H.
   specialize (H w_rid [EPost (PStatus 202 BNotJson); ETimeout; ESse (Some w_ans)] eq_refl).
-  unfold count_terminals in H. destruct c as [a b c d]. destruct b; vm_compute in H; discriminate.
+  unfold count_terminals in H. destruct c as [a b c d e]. destruct b; vm_compute in H; discriminate.
 Qed.
 
 (** Full-strength ordering: everything that was on the stream reaches the read
@@ -598,6 +625,11 @@ Definition w_nospace : str := s_event ++ s_endpoint ++ [10] ++ s_data ++ s_messa
 Lemma head_nospace_not_recognised :
   snd (run_parser cfg_head w_base pinit [w_nospace]) = []
   /\ snd (run_parser cfg_patched w_base pinit [w_nospace]) = [AEndpoint (w_base ++ s_messages ++ [120])].
+Proof. split; reflexivity. Qed.
+
+Lemma head_exit_after_stream_end_hangs :
+  lp (life cfg_head [LAlloc; LStreamOpen; LEnterOk; LPendAdd; LWait; LSseEnds; LExit XNormal]) = LStuck
+  /\ r_out_task (lr (life cfg_head [LAlloc; LStreamOpen; LEnterOk; LPendAdd; LWait; LSseEnds; LExit XNormal])) = true.
 Proof. split; reflexivity. Qed.
 
 Lemma head_cancel_during_enter_leaks :
